@@ -29,7 +29,9 @@ def gen_case(rng, depth):
     elif k == "struct":
         form = rng.choice(["py", "py", "kwargs", "np", "xobj"])
     else:
-        form = rng.choice(["py", "py", "np", "xobj", "dims"])
+        form = rng.choice(["py", "py", "np", "xobj", "dims", "np_be", "xobj_oo"])
+        if form == "np_be" and t["item"]["k"] != "scalar": form = "np"
+        if form == "xobj_oo" and len(t["shape"]) < 2: form = "xobj"
     c = {"type": t, "value": v, "form": form}
     if k == "array" and len(t["shape"]) > 1 and t["item"]["k"] == "scalar" and any(d is None for d in t["shape"]) and rng.random() < 0.15:
         # N-D array with an empty axis: only expressible as numpy array or by lengths
@@ -41,12 +43,15 @@ def gen_case(rng, depth):
         c["cap"] = cap
         # something else lived there before: free space is not zero
         c["value"] = {"s": [], "size": cap + 8}
+    if form == "xobj_oo" and has_spare_capacity(c["value"]):
+        # an array of another class is taken over item by item from the VALUES: a capacity is not part of the value
+        c["form"] = form = "py"
     if form == "dims":
         if G.is_static(t["item"]) and any(d is None for d in t["shape"]):
             c["dims"] = [d for d, cd in zip(v["shape"], t["shape"]) if cd is None]
         else:
             c["form"] = "py"
-    if form == "np" and not G.has_kind(t, "array"):
+    if form in ("np", "np_be") and not G.has_kind(t, "array"):
         c["form"] = "py"
     al = rng.choice([1, 2, 4, 8, 8, 8, 16, 32, 64])
     pre = []
@@ -95,7 +100,7 @@ def systematic_cases(rng):
                     else:
                         items = [{"s": list(("s%d" % i).encode() * (1 + i % 3)), "size": G.slot(len(("s%d" % i).encode() * (1 + i % 3)) + 9)} for i in range(n)]
                     v = {"shape": list(dims), "items": items}
-                    for form in (("py", "np", "xobj") if item["k"] == "scalar" else ("py", "xobj")):
+                    for form in (("py", "np", "xobj", "xobj_oo", "np_be") if item["k"] == "scalar" else ("py", "xobj", "xobj_oo")):
                         for wrap in (False, True):
                             tt, vv = (t, v) if not wrap else ({"k": "struct", "name": G.struct_name([["k", "x"], ["a", t]]), "fields": [["k", {"k": "scalar", "name": "Int64"}], ["a", t]]},
                                                                {"f": [[5, 0, 0, 0, 0, 0, 0, 0], v]})
@@ -195,7 +200,7 @@ def judge(pid, c, r, coq_code):
             what = {1: "value does not have the type (harness)", 2: "reported size differs from the size of the documented image",
                     3: "a defined byte differs from the documented image", 4: "a decoder written from the documentation rejects the bytes",
                     5: "a decoder written from the documentation recovers a different value"}[coq_code]
-            return ("C05/code%d/%s/%s" % (coq_code, form if form in ("np", "xobj", "cap") else "plain", st), what)
+            return ("C05/code%d/%s/%s" % (coq_code, form if form in ("np", "xobj", "cap", "np_be", "xobj_oo") else "plain", st), what)
         return None
     if pid == "C01":
         if uninit:
@@ -306,10 +311,30 @@ def run(ctx):
         for sig, what, rep in extra:
             found = True
             report(ctx, sig, what, rep)
+    if pid == "C05":
+        import c_update
+        ub = c_update.BUDGET[ctx.tier]
+        extra, refcov = c_update.c05_histories(ctx, max(80, ub["n"] // 3), ub["depth"], ub["nops"], ub["shards"])
+        for sig, what, rep in extra:
+            found = True
+            report(ctx, sig, what, rep)
     if pid == "C03":
         import c_refs
         rb = c_refs.BUDGET[ctx.tier]
         extra, refcov = c_refs.c03_histories(ctx, max(50, rb["n"] // 3), rb["nops"], rb["shards"])
+        for sig, what, rep in extra:
+            found = True
+            report(ctx, sig, what, rep)
+    if pid == "C03":
+        import c_update
+        ub = c_update.BUDGET[ctx.tier]
+        extra, aucov = c_update.c03_update_histories(ctx, max(80, ub["n"] // 3), ub["depth"], ub["nops"], ub["shards"])
+        refcov = dict(refcov or {}); refcov.update(aucov)
+        for sig, what, rep in extra:
+            found = True
+            report(ctx, sig, what, rep)
+        extra, sucov = c03_string_update(ctx)
+        refcov = dict(refcov or {}); refcov.update(sucov)
         for sig, what, rep in extra:
             found = True
             report(ctx, sig, what, rep)
@@ -366,8 +391,47 @@ def image_size(c):
     return max(8, sz(c["type"], c["value"]))
 
 
+
+# ------------------------------------------------------------------ C03: the stand-alone assignment method of strings
+def string_update_cases(seed):
+    rng = random.Random(seed + 303)
+    texts = ["", "a", "abcdefg", "abcdefgh", "0123456789", "0123456789abcde", "0123456789abcdef", "\u00e9\u00e8\u00ea", "x" * 23, "y" * 40]
+    cases = []
+    for init in list(range(1, 26)) + ["", "abc", "0123456", "01234567", "0123456789abcdef", "z" * 30]:
+        for text in texts:
+            cases.append({"kind": rng.choice(["numpy", "bytearray"]), "cap_buffer": 160, "init": init, "text": text,
+                          "via": rng.choice(["handle", "view"]), "value_as": rng.choice(["str", "str", "xobj"])})
+    return cases
+
+
+def judge_string_update(c, r):
+    out = []
+    tag = ("capacity" if isinstance(c["init"], int) else "text") + "/" + ("accepted" if r["ok"] else "refused")
+    if r["outside_changed"]:
+        out.append(("C03/string-update/bytes-outside-the-string-changed/" + tag, "String(%r).update(%r): bytes %s outside [%d,%d) changed" % (c["init"], c["text"], r["outside_changed"], r["off"], r["off"] + r["size"])))
+    if r["size_after"] != r["size"]:
+        out.append(("C03/string-update/size-word-changed/" + tag, "size %d -> %d" % (r["size"], r["size_after"])))
+    return out
+
+
+def c03_string_update(ctx):
+    cases = string_update_cases(ctx.seed)
+    results = run_impl(ctx, "strupdate", {"cases": cases})["results"]
+    bysig = {}; hist = collections.Counter()
+    for c, r in zip(cases, results):
+        hist["accepted" if r["ok"] else "refused:" + r.get("exc", "?")] += 1
+        for sig, what in judge_string_update(c, r):
+            if sig not in bysig: bysig[sig] = (c, what, r)
+    out = [(sig, what, dict(kind="concrete", tie="K-STRUPDATE", case=c, observed=r, how_to_replay="./check C03 --replay <this file>")) for sig, (c, what, r) in sorted(bysig.items())]
+    return out, dict(string_update_probes=len(cases), string_update_outcomes=dict(hist))
+
 def replay(ctx, path):
     r = json.load(open(path))
+    if r.get("tie") == "K-STRUPDATE":
+        res = run_impl(ctx, "strupdate", {"cases": [r["case"]]})["results"][0]
+        js = judge_string_update(r["case"], res)
+        print(res); print("REPRODUCED" if js else "not reproduced")
+        return 1 if js else 0
     if r.get("kind") != "concrete":
         print("nothing to execute:", r.get("what")); return 1
     if r.get("tie") == "K-REF":
